@@ -490,7 +490,15 @@ def simify_arbiter(arb):
         return
     if base not in _SIM_CLASSES:
         def _get(self):
-            return sys._getframe(1).f_code.co_name == "start"
+            if sys._getframe(1).f_code.co_name != "start":
+                return False
+            # own-loop scenarios: the FIRST question Arbiter.start() asks (which way start_watchers is launched) gets the
+            # answer circusd gets (no loop provided: `loop.add_future(self.start_watchers(), cb)`), the later ones
+            # (block in start_io_loop? clean up in `finally`?) get the provided-loop answer so that the harness keeps the loop
+            if self.__dict__.get("_verif_own_loop"):
+                self.__dict__["_verif_own_loop"] = False
+                return False
+            return True
 
         def _set(self, v):
             pass
@@ -665,6 +673,8 @@ class Sim(object):
                 # the real Arbiter.start(), in its provided-loop form (no blocking start_io_loop), with zmq set-up stubbed
                 from circus.exc import ConflictError
                 simify_arbiter(self.arb)
+                if self.sc.get("own_loop"):
+                    self.arb.__dict__["_verif_own_loop"] = True
                 self.arb.initialize = lambda: None
                 self.arb.ctrl.start = lambda: None
                 f = self.arb.start()
